@@ -11,7 +11,7 @@ from fim.graph.networkx_property_graph_disjoint import NetworkXPropertyGraphDisj
 
 from fimmc import world
 from fimmc.canon import props_canon
-from fimmc.engine import Model, bfs
+from fimmc.engine import Model, bfs, explore_cases
 from fimmc.refmodel_graph import RefWorld, IDENT
 
 LEVEL = 'model_checking'
@@ -385,7 +385,74 @@ def _diff(want, got):
 
 
 MODEL = LockStep()
-REPLAY = {'lockstep': MODEL}
+
+
+# ------------------------------------------------------------------------------------------ re-keying a graph as a whole
+REKEY_SHAPES = {'1': (('a',), ()), '2': (('a', 'b'), ()), '2e': (('a', 'b'), (('a', 'b'),)), '3e': (('a', 'b', 'c'), (('a', 'b'), ('b', 'c')))}
+
+
+def _observe(cls, imp, gid):
+    g = cls(graph_id=gid, importer=imp)
+    if not g.graph_exists():
+        return None
+    ids = sorted(g.list_all_node_ids())
+    nb = {i: sorted(g.get_first_neighbor(node_id=i, rel='has', node_label='NetworkNode')) for i in ids}
+    return (ids, nb, sorted((i, g.get_node_properties(node_id=i)[1].get('GraphID')) for i in ids))
+
+
+def eval_rekey(case):
+    """whole-graph update of GraphID (what rollback() of a combined model does with a snapshot): afterwards the content is found
+    under the new id and nothing under the old one, on both backends; onto an id in use the per-graph backend may refuse
+    (RuntimeError, as for merging) and must then leave both graphs as they were; the graph goes on working under the new id"""
+    shape, target_in_use = case
+    v = []
+    seen = {}
+    for fl, imp, cls in (('shared', world.shared_importer, NetworkXPropertyGraph), ('disjoint', world.disjoint_importer, NetworkXPropertyGraphDisjoint)):
+        world.reset_all()
+        imp = imp()
+        g = cls(graph_id='G', importer=imp)
+        ids, edges = REKEY_SHAPES[shape]
+        for i in ids:
+            g.add_node(node_id=i, label='NetworkNode', props={'Name': i, 'Type': 'VM'})
+        for a, b in edges:
+            g.add_link(node_a=a, rel='has', node_b=b)
+        if target_in_use:
+            k = cls(graph_id='K', importer=imp)
+            k.add_node(node_id='z', label='NetworkNode', props={'Name': 'z', 'Type': 'VM'})
+        before = (_observe(cls, imp, 'G'), _observe(cls, imp, 'K'))
+        try:
+            g.update_nodes_property(prop_name='GraphID', prop_val='K')
+            out = 'ok'
+        except Exception as e:
+            out = type(e).__name__
+        after = (_observe(cls, imp, 'G'), _observe(cls, imp, 'K'))
+        if out != 'ok':
+            if not (fl == 'disjoint' and target_in_use and out == 'RuntimeError'):
+                v.append((f'rekey/raises/{fl}', f'{out} [shape {shape} target in use {target_in_use}]'))
+            if after != before:
+                v.append((f'rekey/refused-but-changed/{fl}', f'{before} -> {after}'))
+            continue
+        want_ids = sorted(ids + (('z',) if target_in_use else ()))
+        if after[0] is not None or after[1] is None or after[1][0] != want_ids or any(gid != 'K' for _, gid in after[1][2]) or \
+                any(sorted(after[1][1][a]) != sorted(y if x == a else x for x, y in edges if a in (x, y)) for a in ids):
+            v.append((f'rekey/content-lost/{fl}', f'after re-keying G to K: G={after[0]} K={after[1]} [shape {shape} target in use {target_in_use}]'))
+            continue
+        # the graph goes on under its new id: a new node gets an internal id of its own
+        k = cls(graph_id='K', importer=imp)
+        try:
+            k.add_node(node_id='n', label='NetworkNode', props={'Name': 'n', 'Type': 'VM'})
+            got = sorted(k.list_all_node_ids())
+            if got != sorted(want_ids + ['n']):
+                v.append((f'rekey/next-node-disturbs/{fl}', f'{got} [shape {shape}]'))
+        except Exception as e:
+            v.append((f'rekey/next-node-raises/{fl}', f'{type(e).__name__}: {e}'))
+        seen[fl] = after
+    if len(seen) == 2 and seen['shared'] != seen['disjoint']:
+        v.append(('rekey/backends-disagree', f'{seen}'))
+    return {'v': v, 'nt': tuple(case), 'out': f'{shape}:{target_in_use}'}
+
+
+REPLAY = {'lockstep': MODEL, 'rekey': eval_rekey}
 
 
 def run(report):
@@ -394,6 +461,9 @@ def run(report):
             rule='histories of property-graph operations on graph G (ids a,b,c; classes NetworkNode/Link; relations has/connects) '
                  'next to a resident graph H with the same ids; state = reference-model canonical state; each transition executes '
                  'the call on both backends and the model and compares results, raises, snapshots and ~40 query answers')
+    explore_cases(report, 'rekey', eval_rekey, [(sh, t) for sh in REKEY_SHAPES for t in (False, True)], chunk=1,
+                  rule='whole-graph update of GraphID on 4 graph shapes x target id free / in use x both backends: content found under '
+                       'the new id only, connections kept, next node allocated safely; the per-graph backend may refuse an id in use')
     for k in ('add_node:ok', 'add_node:raise', 'merge:ok', 'unset:raise', 'unset:ok', 'upd_link:ok', 'upd_link:raise',
               'delete_graph:ok', 'unset:either'):
         report.require(g['outcomes'].get(k, 0) > 0, f'outcome class {k}')
